@@ -3,6 +3,11 @@
 // interval/byte-function model, FIN/RST lifetime, buffer/SACK limits, lazy keep-alive) predicts the
 // callback trace of the real Tins::TCPIP::StreamFollower; compared after EVERY packet, together
 // with find_stream() and the public state of the touched stream.
+// Every announced connection additionally gets a generated "application behaviour" (struct App): the per-stream user
+// controls of stream.h (ignore_*_data, auto_cleanup_*, out-of-order callbacks, ack tracking, recovery mode,
+// Flow::advance_sequence, callbacks replacing/unregistering themselves) are used from inside the callbacks the way
+// examples/http_requests.cpp does, and the reference table is told the same behaviour (a pure function of case salt,
+// 4-tuple and incarnation number), so that the lifetime clauses are checked whatever the application does.
 #include "verif.h"
 #include <tins/tins.h>
 #include <tins/tcp_ip/stream_follower.h>
@@ -35,11 +40,12 @@ static inline int seqcmp(u32 a, u32 b) { int32_t d = (int32_t)(a - b); return d 
 
 struct Pkt {
     int script = -1; Ep src, dst; u8 flags = 0; u32 seq = 0, ack = 0, len = 0; bool raw = false;
-    std::vector<u32> sack; bool mss = false; u64 ts = 0; u8 link = 0; bool bytes_enc = false;
+    std::vector<u32> sack; bool mss = false; u16 mssv = 1460; bool sackp = false; u64 ts = 0; u8 link = 0; bool bytes_enc = false;
 };
 static std::string show(const Pkt& p) {
     std::string f; if (p.flags & F_SYN) f += "S"; if (p.flags & F_FIN) f += "F"; if (p.flags & F_RST) f += "R"; if (p.flags & F_ACK) f += "."; if (p.flags & F_PSH) f += "P";
     std::string s = "t=" + std::to_string(p.ts) + " #" + std::to_string(p.script) + " " + show(p.src) + ">" + show(p.dst) + " [" + f + "] seq=" + std::to_string(p.seq) + " ack=" + std::to_string(p.ack) + " len=" + std::to_string(p.len) + (p.raw ? "" : " (no payload layer)");
+    if (p.mss) s += " mss=" + std::to_string(p.mssv); if (p.sackp) s += " sackOK";
     if (!p.sack.empty()) { s += " sack="; for (size_t i = 0; i + 1 < p.sack.size(); i += 2) s += "(" + std::to_string(p.sack[i]) + "," + std::to_string(p.sack[i + 1]) + ")"; }
     return s;
 }
@@ -61,21 +67,77 @@ struct Ivs {
     }
 };
 
+// ---- application behaviour: what the user code does with the per-stream controls of stream.h ---------------------
+// Chosen when the stream is announced, as a pure function of (case salt, 4-tuple, incarnation number, partial?), so the
+// callbacks of the real follower and the reference table derive the same behaviour independently of each other.
+struct App {
+    u8 ign_new = 0;                                   // bit 0 client / bit 1 server: ignore_*_data() called in the new-stream callback
+    int ign_trig = -1; u32 ign_thr = 0; u8 ign_what = 0;   // data callback of direction ign_trig, once it has seen >= ign_thr bytes, ignores ign_what (http_requests.cpp)
+    bool keep[2] = {false, false}; u8 keep_api = 0; u32 clear_thr[2] = {0, 0};   // automatic cleanup off; the application clears payload() itself at >= clear_thr (0: never)
+    bool ooo[2] = {false, false}; u32 ooo_unreg[2] = {0, 0}; bool ooo_skip[2] = {false, false};   // out-of-order callback; unregisters itself after n reports; skips forward (Flow::advance_sequence)
+    bool track = false; bool rec = false; u32 rec_win = 0; // enable_ack_tracking(); enable_recovery_mode(rec_win) (only right after attaching to a running flow)
+    u32 swap_after[2] = {0, 0};                       // data callback replaces itself by a second std::function after n invocations
+    bool plain() const { return !ign_new && ign_trig < 0 && !keep[0] && !keep[1] && !ooo[0] && !ooo[1] && !rec && !swap_after[0] && !swap_after[1]; }
+};
+static App app_of(u64 salt, const std::string& key, int gen, bool partial, bool cfg_tracking) {
+    Rng r(mix(mix(salt, fnv(key)), (u64)gen * 2 + (partial ? 1 : 0))); App a;
+#ifdef TINS_HAVE_ACK_TRACKER
+    a.track = cfg_tracking || r.chance(1, 5);
+#else
+    (void)cfg_tracking;
+#endif
+    if (r.chance(1, 3)) return a;                                                       // an application that only listens
+    u32 x = r.below(100);
+    if (x < 10) a.ign_new = 1; else if (x < 20) a.ign_new = 2; else if (x < 26) a.ign_new = 3;
+    else if (x < 50) { a.ign_trig = (int)r.below(2); a.ign_thr = 1 + r.below(r.chance(1, 2) ? 64 : 3000); a.ign_what = (u8)(1 + r.below(3)); }
+    if (r.chance(2, 5)) { u32 w = r.below(4); a.keep[0] = w != 1; a.keep[1] = w != 0; a.keep_api = (u8)r.below(2); for (int d = 0; d < 2; ++d) if (a.keep[d] && r.chance(1, 3)) a.clear_thr[d] = 1 + r.below(2000); }
+    if (partial && r.chance(3, 5)) { a.rec = true; static const u32 wins[] = {0, 1, 20, 1u << 20, 1u << 29}; u32 k = r.below(12); a.rec_win = k < 5 ? wins[k] : k < 8 ? 1 + r.below(64) : 1 + r.below(4000); }
+    if (r.chance(1, 2)) {
+        u32 w = r.below(4); a.ooo[0] = w != 1; a.ooo[1] = w != 0;
+        for (int d = 0; d < 2; ++d) if (a.ooo[d]) { if (!a.rec && r.chance(1, 6)) a.ooo_unreg[d] = 1 + r.below(6); else if (r.chance(1, 8)) a.ooo_skip[d] = true; }
+    }
+    for (int d = 0; d < 2; ++d) if (r.chance(1, 4)) a.swap_after[d] = 1 + r.below(5);
+    return a;
+}
+
+static std::string show(const App& a) {
+    std::string s = "app{";
+    if (a.ign_new) s += std::string(" ignore-from-start=") + (a.ign_new == 1 ? "client" : a.ign_new == 2 ? "server" : "both");
+    if (a.ign_trig >= 0) s += std::string(" ignore-") + (a.ign_what == 1 ? "client" : a.ign_what == 2 ? "server" : "both") + "-from-" + (a.ign_trig ? "server" : "client") + "-data-callback-at>=" + std::to_string(a.ign_thr);
+    for (int d = 0; d < 2; ++d) { const char* dn = d ? "server" : "client"; if (a.keep[d]) s += std::string(" no-auto-cleanup-") + dn + (a.clear_thr[d] ? "(app clears at>=" + std::to_string(a.clear_thr[d]) + ")" : std::string());
+        if (a.ooo[d]) s += std::string(" ooo-callback-") + dn + (a.ooo_unreg[d] ? "(unregisters after " + std::to_string(a.ooo_unreg[d]) + ")" : a.ooo_skip[d] ? "(advance_sequence)" : "");
+        if (a.swap_after[d]) s += std::string(" ") + dn + "-data-callback-replaced-after-" + std::to_string(a.swap_after[d]); }
+    if (a.track) s += " ack-tracking"; if (a.rec) s += " recovery-window=" + std::to_string(a.rec_win);
+    return s + " }";
+}
+
 // ---- reference model ---------------------------------------------------------------------------
 enum { ST_UNKNOWN, ST_SYN, ST_EST, ST_FIN, ST_RST };
+enum { OOO_NO, OOO_MUST, OOO_MAY };
 static const size_t LIM_CHUNKS = 512, LIM_SACK = 1024; static const u64 LIM_BYTES = 3ull * 1024 * 1024;
 struct Side {
+    // k = number of bytes delivered so far; the delivery point is start + k (start is re-based when the application skips forward)
     Ep ep; int st = ST_UNKNOWN; u32 start = 0; u64 k = 0; Ivs arrived; u32 salt = 0;
     std::map<i64, u32> chunks; u64 chunk_bytes = 0; bool disciplined = true; u64 nsegs = 0, nbytes = 0;
     bool trk_sack = false; u32 ackno = 0; Ivs sacked; bool sack_amb = false;
+    int mss = -1; bool sackp = false;                                                   // taken from the SYN that started this direction
+    bool ign = false;                                                                   // the application called ignore_*_data() for this direction
+    bool skip_all = false;                                                              // the application's out-of-order callback skips forward to every non-empty segment beyond the delivery point
+    bool rec = false, rec_may_clear = false, wrap_exposed = false; u32 rec_x = 0, rec_win = 0, rec_end = 0;   // recovery mode (stream.h): window (X, X+Y]
+    int ooo_expect = OOO_NO; u64 nskips = 0;
+    std::vector<std::pair<u64, u32>> pieces;                                            // (delivered-byte index, sequence number of that byte): piecewise map index -> sequence number
+    void rebase() { pieces.push_back({k, start + (u32)k}); }
+    u32 seq_at(u64 i) const { for (size_t q = pieces.size(); q-- > 0;) if (pieces[q].first <= i) return pieces[q].second + (u32)(i - pieces[q].first); return start + (u32)i; }
     void reset_tracker(u32 a) { ackno = a; trk_sack = true; sacked.m.clear(); }
-    void on_flags(u8 f, u32 seq, u32 ack) {
+    void on_flags(const Pkt& p) {       // runs whether or not the direction's data is ignored ("the flow will just be followed to keep track of its state")
+        const u8 f = p.flags;
         if (f & F_FIN) st = ST_FIN;
         else if (f & F_RST) st = ST_RST;
-        else if (st == ST_SYN && (f & F_ACK)) { st = ST_EST; reset_tracker(ack); }
-        else if (st == ST_UNKNOWN && (f & F_SYN)) { st = ST_SYN; start = seq + 1; if (k || !arrived.m.empty()) disciplined = false; reset_tracker(ack); }
+        else if (st == ST_SYN && (f & F_ACK)) { st = ST_EST; reset_tracker(p.ack); }
+        else if (st == ST_UNKNOWN && (f & F_SYN)) { st = ST_SYN; start = p.seq + 1 - (u32)k; rebase(); if (k || !arrived.m.empty()) disciplined = false; reset_tracker(p.ack); mss = p.mss ? (int)p.mssv : -1; sackp = p.sackp; }
     }
     void on_ack(u32 ack, const std::vector<u32>& sk) {      // only when ack tracking is enabled for the stream
+        if ((u32)(ack - ackno) == 0x80000000u) sack_amb = true;                         // exactly half the number space apart: order undefined (RFC 1982)
         if (seqcmp(ack, ackno) > 0) {
             if (ackno <= ack) sacked.cut(ackno, (i64)ack + 1); else { sacked.cut(ackno, 1ll << 32); sacked.cut(0, (i64)ack + 1); }
             ackno = ack;
@@ -88,10 +150,36 @@ struct Side {
             sacked.add(l, (i64)last + 1);
         }
     }
-    // one payload-carrying segment; returns number of newly deliverable bytes
+    // The application (or recovery mode on its behalf) moves the delivery point forward by rel > 0 bytes: Flow::advance_sequence.
+    // Segments buffered at or before the target are obsolete. flow.h does not say what happens to a buffered segment that
+    // STRADDLES the target (the engine drops it whole); with the applications generated here the buffer of the direction is
+    // empty at every skip, so this is followed and counted, not asserted.
+    void skip_to(i64 rel) {
+        std::map<i64, u32> nc; u64 nb = 0; Ivs na;
+        for (auto& c : chunks) { i64 o = c.first - (i64)k; if (o <= rel) { if (o + (i64)c.second > rel) cnt("obs:skip-dropped-buffered-bytes-beyond-target"); continue; } nc[c.first - rel] = c.second; nb += c.second; na.add(c.first - rel, c.first - rel + (i64)c.second); }
+        chunks.swap(nc); chunk_bytes = nb; arrived = na; start += (u32)rel; rebase(); ++nskips;
+    }
+    // one payload-carrying segment of a direction that is not ignored; returns number of newly deliverable bytes
     u64 on_data(u32 seq, u32 len) {
         ++nsegs; nbytes += len;
         u32 cur = start + (u32)k; i64 rel = (int32_t)(seq - cur), end = rel + (i64)len;
+        // Out-of-order callback: a non-empty segment that starts beyond the delivery point must be reported (once, with its
+        // sequence number and bytes); one that starts at or before it and reaches it must not. For segments that end before
+        // the delivery point (the engine reports them as well) and for empty segments the headers promise nothing: observed only.
+        ooo_expect = end < 0 ? OOO_MAY : rel > 0 ? (len ? OOO_MUST : OOO_MAY) : OOO_NO;
+        const bool reported = rel > 0 || end < 0;                                        // what the engine hands to the out-of-order callback (and so to the recovery handler chained behind it)
+        if (skip_all && rel > 0 && len) { cnt("skip:application-advanced-sequence"); skip_to(rel); cur += (u32)rel; rel = 0; end = len; }
+        if (rec && reported) {
+            // stream.h: while recovery mode is on, an out of order packet with a sequence number in (X, X+Y] (X = sequence number
+            // when the mode was enabled, Y = window) makes the flow continue at that packet; the mode ends with an out of order
+            // packet outside the window. Sequence numbers are compared as TCP compares them (modulo 2^32).
+            const bool in_win = (u32)(seq - rec_x) - 1u < rec_win, doc_skip = rel > 0 && in_win, doc_keep = seqcmp(rec_end, seq) > 0;
+            const bool eng_skip = rel > 0 && seq > cur && seq <= rec_end, eng_keep = rec_end > seq;      // the same decisions with plain unsigned comparisons
+            if (doc_skip != eng_skip || doc_keep != eng_keep) wrap_exposed = true;
+            if (!(in_win && seq != rec_end)) rec_may_clear = true;
+            if (doc_skip) { cnt("rec:skipped-to-segment-in-window"); skip_to(rel); rel = 0; end = len; } else if (rel > 0) cnt("rec:segment-beyond-window-buffered");
+            if (!doc_keep) { rec = false; cnt("rec:window-left"); }
+        }
         if (end < 0) { cnt("br:ignored-old"); return 0; }
         i64 a = std::max<i64>(rel, 0), A = (i64)k + a, B = (i64)k + end;
         if (rel < 0 && end > 0) cnt("br:slice-on-entry"); else if (rel > 0) cnt("br:out-of-order"); else if (rel == 0 && len) cnt("br:in-order");
@@ -114,7 +202,7 @@ struct Side {
 };
 struct Inc {   // one incarnation of a connection in the reference table
     int ann = -1; bool v6 = false, partial = false, tracking = false; Side c, s; u64 created = 0, last_seen = 0; std::string key;
-    bool dead = false;
+    bool dead = false; App app; int gen = 0; bool ign_fired = false, wrap_seen = false, quar = false;
     bool finished() const { return c.st == ST_RST || s.st == ST_RST || (c.st == ST_FIN && s.st == ST_FIN); }
     size_t chunks() const { return c.chunks.size() + s.chunks.size(); }
     u64 bytes() const { return c.chunk_bytes + s.chunk_bytes; }
@@ -124,11 +212,16 @@ struct Inc {   // one incarnation of a connection in the reference table
 // ---- what the callbacks of the real follower record -------------------------------------------------
 struct Ann {   // one announcement by the follower
     Stream* handle = nullptr; std::string key; Ep c, s; bool partial = false; i64 create_time = 0; u8 chw[6], shw[6];
-    Bytes fresh[2]; u64 verified[2] = {0, 0}; u64 seen_total[2] = {0, 0}; bool accumulate = false; bool shrink[2] = {false, false};
+    Bytes fresh[2]; u64 verified[2] = {0, 0}; u64 seen_total[2] = {0, 0}; bool shrink[2] = {false, false};
     int closed = 0, terminated = 0;
+    // the application living in the callbacks
+    App app; int gen = 0; u64 held[2] = {0, 0}, cleared[2] = {0, 0}, chk_size[2] = {~0ull, ~0ull}; bool ign_fired = false;
+    bool ooo_live[2] = {false, false}, ooo_live0[2] = {false, false}; u32 ooo_n[2] = {0, 0}, data_calls[2] = {0, 0};
+    bool rec_flag_before = false, trk_flag_before = false, trk_flag_after = false, rec_flag_after = false;
 };
 enum { EV_NEW, EV_CDATA, EV_SDATA, EV_CLOSED, EV_TERM };
 struct Ev { int type; int ann; int reason; };
+struct OooRep { int ann; int dir; u32 seq; Bytes data; };   // one invocation of an out-of-order callback
 
 static Ep ep_of(const Stream& s, bool client) {
     Ep e; e.v6 = s.is_v6(); e.port = client ? s.client_port() : s.server_port();
@@ -145,7 +238,7 @@ static void put16(Bytes& b, u16 v) { b.push_back((u8)(v >> 8)); b.push_back((u8)
 static void put32(Bytes& b, u32 v) { put16(b, (u16)(v >> 16)); put16(b, (u16)v); }
 static Bytes encode(const Pkt& p, const u8* payload) {
     Bytes tcp; put16(tcp, p.src.port); put16(tcp, p.dst.port); put32(tcp, p.seq); put32(tcp, p.ack);
-    Bytes opt; if (p.mss) { opt.push_back(2); opt.push_back(4); put16(opt, 1460); opt.push_back(4); opt.push_back(2); }
+    Bytes opt; if (p.mss) { opt.push_back(2); opt.push_back(4); put16(opt, p.mssv); } if (p.sackp) { opt.push_back(4); opt.push_back(2); }
     if (!p.sack.empty()) { opt.push_back(5); opt.push_back((u8)(2 + 4 * p.sack.size())); for (u32 e : p.sack) put32(opt, e); }
     while (opt.size() % 4) opt.push_back(1);
     tcp.push_back((u8)(((20 + opt.size()) / 4) << 4)); tcp.push_back(p.flags); put16(tcp, 65535); put16(tcp, 0); put16(tcp, 0);
@@ -171,7 +264,7 @@ static PDU* build(const Pkt& p) {
     }
     cnt("pkt:built-as-objects");
     TCP* t = new TCP(p.dst.port, p.src.port); t->seq(p.seq); t->ack_seq(p.ack); t->flags(p.flags);
-    if (p.mss) { t->mss(1460); t->sack_permitted(); }
+    if (p.mss) t->mss(p.mssv); if (p.sackp) t->sack_permitted();
     if (!p.sack.empty()) t->sack(p.sack);
     if (p.raw) t->inner_pdu(new RawPDU(pl.data(), (u32)pl.size()));
     PDU* l3;
@@ -255,8 +348,9 @@ struct Gen {
         p.bytes_enc = r.below(10) < (u32)cfg.bytes_share && len < 60000; p.link = r.chance(3, 4) ? 0 : 1; return p;
     }
     void handshake(Script& sc, int idx, u32 ic, u32 is, bool third = true) {
-        Pkt a = mk(sc, idx, true, F_SYN, ic, 0, 0); a.mss = r.chance(1, 2); sc.pk.push_back(a);
-        Pkt b = mk(sc, idx, false, F_SYN | F_ACK, is, ic + 1, 0); b.mss = a.mss; sc.pk.push_back(b);
+        static const u16 mv[] = {1460, 536, 1, 65535, 0, 9000};
+        Pkt a = mk(sc, idx, true, F_SYN, ic, 0, 0); a.mss = r.chance(1, 2); a.mssv = mv[r.below(6)]; a.sackp = r.chance(1, 2); sc.pk.push_back(a);
+        Pkt b = mk(sc, idx, false, F_SYN | F_ACK, is, ic + 1, 0); b.mss = r.chance(1, 2); b.mssv = mv[r.below(6)]; b.sackp = r.chance(1, 2); sc.pk.push_back(b);
         if (third) sc.pk.push_back(mk(sc, idx, true, F_ACK, ic + 1, is + 1, 0));
     }
     void stamp(Script& sc, u64 t, int quiet, u64 small_div = 1) {
@@ -272,6 +366,12 @@ struct Gen {
         size_t nc = r.chance(1, 8) ? 0 : 1 + r.below((u32)big), ns = r.chance(1, 8) ? 0 : 1 + r.below((u32)big);
         std::vector<SegG> gc = gen_segs(r, nc, 140), gs = gen_segs(r, ns, 140);
         if (hs) handshake(sc, idx, ic, is, !r.chance(1, 5));
+        bool lossy = false;
+        if (!hs && cfg.attach && r.chance(1, 3)) {     // the capture started after, and lost, the beginning: nothing below offset L of a direction is ever seen
+            u32 which = 1 + r.below(3);
+            for (int d = 0; d < 2; ++d) if (which & (1 << d)) { std::vector<SegG>& g = d ? gs : gc; size_t n = d ? ns : nc; if (n < 2) continue; i64 L = 1 + (i64)r.below((u32)std::min<size_t>(n - 1, r.chance(1, 2) ? 40 : 3000)); std::vector<SegG> kept; for (auto& x : g) if (x.off >= L) kept.push_back(x); if (!kept.empty() && kept.size() < g.size()) { g.swap(kept); lossy = true; } }
+            if (lossy) cnt("gen:mid-stream-with-lost-beginning");
+        }
         size_t first_data = sc.pk.size();
         Ivs sentc, sents; size_t i = 0, j = 0; bool sackful = cfg.tracking && r.chance(1, 3);
         auto contig = [](Ivs& v) { return (!v.m.empty() && v.m.begin()->first <= 0) ? (u32)v.m.begin()->second : 0u; };
@@ -304,7 +404,7 @@ struct Gen {
         if (before_close > first_data) {
             u32 dups = r.below(4); for (u32 q = 0; q < dups; ++q) { size_t from = first_data + r.below((u32)(before_close - first_data)); Pkt d = sc.pk[from]; size_t lim = sc.ends_with_rst ? sc.pk.size() - 1 : sc.pk.size(); size_t to = from + r.below((u32)(lim - from + 1)); sc.pk.insert(sc.pk.begin() + to, d); if (to >= before_close) cnt("gen:stray-after-close"); }
         }
-        if (!hs) sc.what += cfg.attach ? ",mid-stream" : ",mid-stream(must stay unannounced)";
+        if (!hs) sc.what += cfg.attach ? (lossy ? ",mid-stream,beginning-lost" : ",mid-stream") : ",mid-stream(must stay unannounced)";
         sc.what += " isn=" + std::to_string(ic) + "/" + std::to_string(is) + " bytes=" + std::to_string(nc) + "/" + std::to_string(ns);
         stamp(sc, t0, r.chance(1, 4) ? 60 : 8);
         bool rst_end = sc.ends_with_rst; u64 te = sc.t_end; Ep c = sc.c, s = sc.s; scripts.push_back(sc);
@@ -374,27 +474,52 @@ struct Gen {
 // ---- one case ---------------------------------------------------------------------------------------
 struct Case {
     Rng& rng; Cfg cfg; StreamFollower fol; std::map<std::string, Inc> table; std::vector<Ann> anns; std::vector<Ev> evs; std::map<std::string, int> last_ann;
-    std::vector<Pkt> pkts; size_t step_no = 0; bool failed = false; std::string sfx; u64 acc_salt = 0; std::vector<std::string> all_keys;
+    std::vector<Pkt> pkts; size_t step_no = 0; bool failed = false; std::string sfx; std::vector<std::string> all_keys;
     std::map<int, std::vector<u32>> recent;   // per script: indices of its last packets (for the violation text)
+    std::vector<OooRep> ooos; std::map<std::string, int> gen_cb, gen_model; u64 app_salt = 0; Inc* soft_inc = nullptr; bool soft_failed = false; std::string cur_app;
     explicit Case(Rng& r) : rng(r) {}
 
+    // A connection in recovery mode whose window test straddled the 2^32 wrap (Side::wrap_exposed, fixes/C07-2.md) gets its
+    // data-dependent checks run "softly": the first failure is reported once with the discriminator /recovery-seq-wrap, the
+    // connection is then no longer data-checked (quarantined) and the case goes on; its lifetime checks stay hard.
     bool fail(const std::string& key, const std::string& msg) {
-        if (failed) return false; failed = true;
+        if (failed) return false;
         std::string ctx = " :: at packet #" + std::to_string(step_no) + " of " + std::to_string(pkts.size());
+        if (!cur_app.empty()) ctx += " " + cur_app;
         if (step_no < pkts.size()) { ctx += " {" + show(pkts[step_no]) + "} recent packets of this tuple:"; for (u32 i : recent[pkts[step_no].script % 1000]) ctx += " | #" + std::to_string(i) + " " + show(pkts[i]).substr(0, 160); }
-        violation(key + sfx, msg + ctx); return false;
+        if (soft_inc) { soft_failed = true; if (!soft_inc->quar) { soft_inc->quar = true; cnt("rec:seq-wrap-finding-reported(connection-quarantined)"); violation(key + sfx + "/recovery-seq-wrap", msg + ctx); } return false; }
+        failed = true; violation(key + sfx, msg + ctx); return false;
+    }
+    // runs one data-dependent check of connection `inc`; false = the case must stop
+    template <class F> bool soft(Inc* inc, F check) {
+        if (inc && inc->quar) return true;
+        soft_inc = (inc && inc->wrap_seen) ? inc : nullptr; soft_failed = false; bool ok = check(); soft_inc = nullptr;
+        if (ok) return true; bool was_soft = soft_failed; soft_failed = false; return was_soft;
+    }
+    void set_data_cb(Stream& st, int id, int dir) {
+        if (dir) st.server_data_callback([this, id](Stream& s) { on_data(s, id, 1); }); else st.client_data_callback([this, id](Stream& s) { on_data(s, id, 0); });
     }
     void install() {
         fol.new_stream_callback([this](Stream& st) {
             Ann a; a.handle = &st; a.c = ep_of(st, true); a.s = ep_of(st, false); a.key = mk_key(a.c, a.s); a.partial = st.is_partial_stream();
             a.create_time = std::chrono::duration_cast<std::chrono::microseconds>(st.create_time()).count();
             std::copy(st.client_hw_addr().begin(), st.client_hw_addr().end(), a.chw); std::copy(st.server_hw_addr().begin(), st.server_hw_addr().end(), a.shw);
-            a.accumulate = (mix(acc_salt, fnv(a.key)) % 5) == 0;
+            a.gen = gen_cb[a.key]++; a.app = app_of(app_salt, a.key, a.gen, a.partial, cfg.tracking); const App ap = a.app;
+            a.rec_flag_before = st.is_recovery_mode_enabled(); a.trk_flag_before = st.ack_tracking_enabled();
+            for (int d = 0; d < 2; ++d) a.ooo_live[d] = a.ooo_live0[d] = ap.ooo[d];
             int id = (int)anns.size(); anns.push_back(a); last_ann[a.key] = id; evs.push_back({EV_NEW, id, 0});
-            if (a.accumulate) st.auto_cleanup_payloads(false);
-            if (cfg.tracking) st.enable_ack_tracking();
-            st.client_data_callback([this, id](Stream& s) { on_data(s, id, 0); });
-            st.server_data_callback([this, id](Stream& s) { on_data(s, id, 1); });
+            // --- the application configures its stream (what on_new_connection of examples/http_requests.cpp does, and more)
+            if (ap.keep[0] && ap.keep[1] && ap.keep_api == 0) st.auto_cleanup_payloads(false);
+            else if (ap.keep_api == 0) { if (ap.keep[0]) st.auto_cleanup_client_data(false); if (ap.keep[1]) st.auto_cleanup_server_data(false); }
+            else if (ap.keep[0] || ap.keep[1]) { st.auto_cleanup_payloads(false); if (!ap.keep[0]) st.auto_cleanup_client_data(true); if (!ap.keep[1]) st.auto_cleanup_server_data(true); }
+            if (ap.track) st.enable_ack_tracking();
+            if (ap.ooo[0]) st.client_out_of_order_callback([this, id](Stream& s, uint32_t seq, const Stream::payload_type& pl) { on_ooo(s, id, 0, seq, pl); });
+            if (ap.ooo[1]) st.server_out_of_order_callback([this, id](Stream& s, uint32_t seq, const Stream::payload_type& pl) { on_ooo(s, id, 1, seq, pl); });
+            if (ap.rec) st.enable_recovery_mode(ap.rec_win);        // after the out-of-order callbacks: the recovery handler chains to what is registered at this point
+            if (ap.ign_new & 1) st.ignore_client_data();
+            if (ap.ign_new & 2) st.ignore_server_data();
+            anns[id].trk_flag_after = st.ack_tracking_enabled(); anns[id].rec_flag_after = st.is_recovery_mode_enabled();
+            set_data_cb(st, id, 0); set_data_cb(st, id, 1);
             st.stream_closed_callback([this, id](Stream& s) { if (&s != anns[id].handle) evs.push_back({EV_CLOSED, -2, 0}); else { anns[id].closed++; evs.push_back({EV_CLOSED, id, 0}); } });
         });
         fol.stream_termination_callback([this](Stream& s, StreamFollower::TerminationReason why) {
@@ -406,10 +531,30 @@ struct Case {
     }
     void on_data(Stream& s, int id, int dir) {
         Ann& a = anns[id]; if (&s != a.handle) { evs.push_back({dir ? EV_SDATA : EV_CDATA, -2, 0}); return; }
-        const Stream::payload_type& pl = dir ? s.server_payload() : s.client_payload();
-        if (a.accumulate) { if (pl.size() < a.seen_total[dir]) a.shrink[dir] = true; else a.fresh[dir].insert(a.fresh[dir].end(), pl.begin() + a.seen_total[dir], pl.end()); a.seen_total[dir] = pl.size(); }
+        const Stream& cs = s; const Stream::payload_type& pl = dir ? cs.server_payload() : cs.client_payload();
+        if (a.app.keep[dir]) {      // automatic cleanup is off: payload() keeps everything since the application last cleared it
+            if (pl.size() < a.held[dir]) a.shrink[dir] = true; else { a.fresh[dir].insert(a.fresh[dir].end(), pl.begin() + a.held[dir], pl.end()); a.seen_total[dir] += pl.size() - a.held[dir]; }
+            a.held[dir] = pl.size();
+            if (a.app.clear_thr[dir] && pl.size() >= a.app.clear_thr[dir]) { a.cleared[dir] += pl.size(); a.held[dir] = 0; (dir ? s.server_payload() : s.client_payload()).clear(); cnt("app:payload-cleared-by-application"); }
+        }
         else { a.fresh[dir].insert(a.fresh[dir].end(), pl.begin(), pl.end()); a.seen_total[dir] += pl.size(); }
-        evs.push_back({dir ? EV_SDATA : EV_CDATA, id, 0});
+        evs.push_back({dir ? EV_SDATA : EV_CDATA, id, 0}); ++a.data_calls[dir];
+        // once enough of this direction has been seen, stop listening (http_requests.cpp: ignore_client_data()/ignore_server_data() from a data callback)
+        if (a.app.ign_trig == dir && !a.ign_fired && a.seen_total[dir] >= a.app.ign_thr) { a.ign_fired = true; if (a.app.ign_what & 1) s.ignore_client_data(); if (a.app.ign_what & 2) s.ignore_server_data(); }
+        // last action (nothing of the running std::function is touched afterwards): the callback replaces itself
+        if (a.app.swap_after[dir] && a.data_calls[dir] == a.app.swap_after[dir]) { cnt("app:data-callback-replaced-itself"); set_data_cb(s, id, dir); }
+    }
+    void on_ooo(Stream& s, int id, int dir, u32 seq, const Stream::payload_type& pl) {
+        Ann& a = anns[id]; if (&s != a.handle) { ooos.push_back({-2, dir, seq, Bytes()}); return; }
+        ooos.push_back({id, dir, seq, Bytes(pl.begin(), pl.end())}); ++a.ooo_n[dir];
+        Flow& fl = dir ? s.server_flow() : s.client_flow();
+        // flow.h: "particularly useful to call from an out of order callback, if the application wants to skip forward to this out of order block"
+        if (a.app.ooo_skip[dir] && !pl.empty() && seqcmp(seq, fl.sequence_number()) > 0) fl.advance_sequence(seq);
+        // last action: the callback unregisters itself
+        if (a.app.ooo_unreg[dir] && a.ooo_n[dir] == a.app.ooo_unreg[dir]) {
+            a.ooo_live[dir] = false; cnt("app:ooo-callback-unregistered-itself");
+            if (dir) s.server_out_of_order_callback(Stream::stream_packet_callback_type()); else s.client_out_of_order_callback(Stream::stream_packet_callback_type());
+        }
     }
     // compare what was delivered for announcement `id` with the model's prefix lengths
     bool check_data(int id, const Inc& inc) {
@@ -418,8 +563,9 @@ struct Case {
             const Side& sd = d ? inc.s : inc.c; const char* dn = d ? "server" : "client";
             if (a.shrink[d]) return fail(std::string("data/accumulated-payload-shrank/") + dn, "payload() got shorter although automatic cleanup is off");
             u64 total = a.verified[d] + a.fresh[d].size();
+            if (sd.ign && total > sd.k) return fail(std::string("ignore/delivered-although-ignored/") + dn, std::string(dn) + " data callback delivered " + std::to_string(total - sd.k) + " bytes after the application called ignore_" + dn + "_data()");
             if (total != sd.k) return fail(std::string(total > sd.k ? "data/delivered-too-much/" : "data/delivered-too-little/") + dn, std::string(dn) + " direction delivered " + std::to_string(total) + " bytes in total, contiguous prefix that has arrived is " + std::to_string(sd.k) + " (stream " + show(inc.c.ep) + ">" + show(inc.s.ep) + ")");
-            for (size_t i = 0; i < a.fresh[d].size(); ++i) if (a.fresh[d][i] != H(sd.salt, sd.start + (u32)(a.verified[d] + i))) return fail(std::string("data/wrong-bytes/") + dn, std::string(dn) + " direction: delivered byte at stream offset " + std::to_string(a.verified[d] + i) + " is not the byte that was sent in this connection and direction at that sequence number");
+            for (size_t i = 0; i < a.fresh[d].size(); ++i) if (a.fresh[d][i] != H(sd.salt, sd.seq_at(a.verified[d] + i))) return fail(std::string("data/wrong-bytes/") + dn, std::string(dn) + " direction: delivered byte at stream offset " + std::to_string(a.verified[d] + i) + " is not the byte that was sent in this connection and direction at that sequence number");
             cnt("chk:delivered-bytes", a.fresh[d].size()); a.verified[d] = total; a.fresh[d].clear();
         }
         return true;
@@ -429,7 +575,7 @@ struct Case {
         try { bool sw = rng.chance(1, 2); const Ep& x = sw ? s : c; const Ep& y = sw ? c : s; return c.v6 ? &fol.find_stream(v6(x), x.port, v6(y), y.port) : &fol.find_stream(v4(x), x.port, v4(y), y.port); }
         catch (stream_not_found&) { return nullptr; } catch (...) { threw_other = true; return nullptr; }
     }
-    bool check_presence(const std::string& key, const Ep& x, const Ep& y) {
+    bool check_presence(const std::string& key, const Ep& x, const Ep& y, bool ident = false) {
         auto it = table.find(key); bool other; Stream* st = lookup(x, y, other); cnt("chk:find_stream");
         if (other) return fail("find_stream/unexpected-exception", "find_stream threw something else than stream_not_found");
         if (it == table.end()) { if (st) return fail("forget/still-tracked", "find_stream still finds " + show(x) + "<>" + show(y) + " although the connection is closed/terminated/never announced in the reference table"); return true; }
@@ -438,41 +584,118 @@ struct Case {
         if (st != anns[inc.ann].handle) return fail("find_stream/other-object", "find_stream returns a different Stream object than the one announced for this connection");
         if (!same(ep_of(*st, true), inc.c.ep) || !same(ep_of(*st, false), inc.s.ep)) return fail("find_stream/wrong-endpoints", "stream found for " + show(inc.c.ep) + ">" + show(inc.s.ep) + " reports " + show(ep_of(*st, true)) + ">" + show(ep_of(*st, false)));
         if (st->is_finished()) return fail("forget/finished-but-kept", "a tracked stream reports is_finished()");
+        if (ident) {        // StreamIdentifier built from the Stream object: equal to one built from the 4-tuple in either role order, different from a neighbour's
+            typedef StreamIdentifier::address_type AT; auto ser = [](const Ep& e) { AT a; a.fill(0); std::copy(e.a, e.a + (e.v6 ? 16 : 4), a.begin()); return a; };
+            const Stream& cs = *st; StreamIdentifier id = StreamIdentifier::make_identifier(cs);
+            StreamIdentifier cs_order(ser(inc.c.ep), inc.c.ep.port, ser(inc.s.ep), inc.s.ep.port, inc.v6), sc_order(ser(inc.s.ep), inc.s.ep.port, ser(inc.c.ep), inc.c.ep.port, inc.v6);
+            if (!(id == cs_order) || !(id == sc_order) || !(cs_order == sc_order)) return fail("identifier/equality", "identifier made from the Stream differs from the identifier of its own 4-tuple " + show(inc.c.ep) + "<>" + show(inc.s.ep));
+            Ep o = inc.s.ep; o.port = (u16)(o.port + 1); StreamIdentifier nb(ser(inc.c.ep), inc.c.ep.port, ser(o), o.port, inc.v6), fam(ser(inc.c.ep), inc.c.ep.port, ser(inc.s.ep), inc.s.ep.port, !inc.v6);
+            if (id == nb || id == fam) return fail("identifier/equality-too-wide", "identifier of " + show(inc.c.ep) + "<>" + show(inc.s.ep) + " compares equal to the identifier of another port / address family");
+            cnt("chk:stream-identifier");
+        }
         return true;
     }
+    // state that does not depend on which bytes were delivered
     bool check_state(const Inc& inc, u64 ts) {
-        Stream* st = anns[inc.ann].handle;     // presence was verified just before
+        Stream* st = anns[inc.ann].handle; const Stream& cs = *st;    // presence was verified just before
         for (int d = 0; d < 2; ++d) {
-            const Side& sd = d ? inc.s : inc.c; const Flow& fl = d ? st->server_flow() : st->client_flow(); const char* dn = d ? "server" : "client";
-            if (fl.sequence_number() != sd.start + (u32)sd.k) return fail(std::string("state/sequence-number/") + dn, std::string(dn) + " flow expects sequence " + std::to_string(fl.sequence_number()) + ", reference " + std::to_string(sd.start + (u32)sd.k));
-            if (sd.disciplined) {
-                if (fl.buffered_payload().size() != sd.chunks.size()) return fail(std::string("state/buffered-chunks/") + dn, std::string(dn) + " flow holds " + std::to_string(fl.buffered_payload().size()) + " out-of-order chunks, reference " + std::to_string(sd.chunks.size()));
-                if (fl.total_buffered_bytes() != sd.chunk_bytes) return fail(std::string("state/buffered-bytes/") + dn, std::string(dn) + " flow reports " + std::to_string(fl.total_buffered_bytes()) + " buffered bytes, reference " + std::to_string(sd.chunk_bytes));
-                cnt("chk:buffer-accounting");
+            const Side& sd = d ? inc.s : inc.c; const Flow& fl = d ? cs.server_flow() : cs.client_flow(); const std::string dn = d ? "server" : "client";
+            // options of the SYN that started this direction (flow.h: -1 when the peer sent no MSS option)
+            if (fl.mss() != sd.mss) return fail("state/mss/" + dn, dn + " flow reports mss()=" + std::to_string(fl.mss()) + ", its SYN carried " + (sd.mss < 0 ? std::string("no MSS option") : std::to_string(sd.mss)));
+            if (fl.sack_permitted() != sd.sackp) return fail("state/sack-permitted/" + dn, dn + " flow reports sack_permitted()=" + std::to_string(fl.sack_permitted()) + ", SACK-permitted option on its SYN: " + std::to_string(sd.sackp));
+            if (sd.mss >= 0) cnt("chk:mss-of-syn"); if (sd.sackp) cnt("chk:sack-permitted-of-syn");
+#ifdef TINS_HAVE_ACK_TRACKER
+            // the tracker of a direction follows the acknowledgement numbers that direction's sender puts on its packets (also while its data is ignored)
+            if (inc.tracking && !sd.sack_amb) {
+                if (fl.ack_tracker().ack_number() != sd.ackno) return fail("ack-tracking/ack-number/" + dn, dn + " flow's ack_tracker().ack_number()=" + std::to_string(fl.ack_tracker().ack_number()) + ", highest acknowledgement sent by the " + dn + ": " + std::to_string(sd.ackno));
+                cnt("chk:ack-number"); if (sd.ign) cnt("chk:ack-number-of-ignored-direction");
             }
+#endif
         }
+        if (cs.ack_tracking_enabled() != inc.tracking) return fail("ack-tracking/enabled-flag", "ack_tracking_enabled()=" + std::to_string(cs.ack_tracking_enabled()) + " although the application " + (inc.tracking ? "enabled" : "never enabled") + " it");
+        if (!inc.app.rec && cs.is_recovery_mode_enabled()) return fail("recovery/flag-set-without-enable", "is_recovery_mode_enabled() on a stream whose application never enabled it");
         i64 ls = std::chrono::duration_cast<std::chrono::microseconds>(st->last_seen()).count();
         if ((u64)ls != ts) return fail("state/last-seen", "last_seen()=" + std::to_string(ls) + " after a packet of this connection at " + std::to_string(ts));
         return true;
     }
 
+    // state that follows from the bytes delivered/buffered so far
+    bool check_data_state(const Inc& inc) {
+        Stream* st = anns[inc.ann].handle; const Stream& cs = *st; Ann& a = anns[inc.ann];    // presence was verified just before
+        for (int d = 0; d < 2; ++d) {
+            const Side& sd = d ? inc.s : inc.c; const Flow& fl = d ? cs.server_flow() : cs.client_flow(); const std::string dn = d ? "server" : "client";
+            if (sd.ign) {
+                // An ignored direction must not buffer: whatever was buffered when ignoring began stays, nothing is added. (Whether
+                // sequence_number() of an ignored flow moves is not documented: observed.)
+                cnt(fl.sequence_number() == sd.start + (u32)sd.k ? "obs:ignored-direction-sequence-number-stays" : "obs:ignored-direction-sequence-number-moves");
+                if (sd.disciplined) {
+                    if (fl.buffered_payload().size() != sd.chunks.size()) return fail("ignore/buffered-chunks/" + dn, dn + " flow holds " + std::to_string(fl.buffered_payload().size()) + " out-of-order chunks although its data is ignored (" + std::to_string(sd.chunks.size()) + " were buffered when ignoring began)");
+                    if (fl.total_buffered_bytes() != sd.chunk_bytes) return fail("ignore/buffered-bytes/" + dn, dn + " flow reports " + std::to_string(fl.total_buffered_bytes()) + " buffered bytes although its data is ignored (" + std::to_string(sd.chunk_bytes) + " when ignoring began)");
+                    cnt("chk:ignored-direction-not-buffered");
+                }
+            }
+            else {
+                if (fl.sequence_number() != sd.start + (u32)sd.k) return fail("state/sequence-number/" + dn, dn + " flow expects sequence " + std::to_string(fl.sequence_number()) + ", reference " + std::to_string(sd.start + (u32)sd.k) + (sd.nskips ? " (after " + std::to_string(sd.nskips) + " skips forward)" : std::string()));
+                if (sd.disciplined) {
+                    if (fl.buffered_payload().size() != sd.chunks.size()) return fail("state/buffered-chunks/" + dn, dn + " flow holds " + std::to_string(fl.buffered_payload().size()) + " out-of-order chunks, reference " + std::to_string(sd.chunks.size()));
+                    if (fl.total_buffered_bytes() != sd.chunk_bytes) return fail("state/buffered-bytes/" + dn, dn + " flow reports " + std::to_string(fl.total_buffered_bytes()) + " buffered bytes, reference " + std::to_string(sd.chunk_bytes));
+                    cnt("chk:buffer-accounting");
+                }
+            }
+            // payload(): empty once the callback has returned when automatic cleanup is on; everything delivered since the application last cleared it when off
+            const Stream::payload_type& pl = d ? cs.server_payload() : cs.client_payload();
+            if (!a.app.keep[d]) { if (!pl.empty()) return fail("cleanup/payload-not-erased/" + dn, dn + "_payload() still holds " + std::to_string(pl.size()) + " bytes after the data callback returned although automatic cleanup is on"); if (sd.k) cnt("chk:payload-erased-after-callback"); }
+            else {
+                if (pl.size() + a.cleared[d] != sd.k) return fail("cleanup/kept-payload-length/" + dn, dn + "_payload() holds " + std::to_string(pl.size()) + " bytes with automatic cleanup off, delivered so far " + std::to_string(sd.k) + ", cleared by the application " + std::to_string(a.cleared[d]));
+                const u64 base = sd.k - pl.size(); const bool full = a.chk_size[d] != pl.size() || pl.size() <= 512; a.chk_size[d] = pl.size();
+                for (size_t i = 0, n = full ? pl.size() : std::min<size_t>(pl.size(), 6); i < n; ++i) { size_t j = full ? i : (size_t)rng.below((u32)pl.size()); if (pl[j] != H(sd.salt, sd.seq_at(base + j))) return fail("cleanup/kept-payload-bytes/" + dn, dn + "_payload() (automatic cleanup off) byte " + std::to_string(j) + " is not the byte delivered at that position"); }
+                cnt("chk:kept-payload-is-delivered-prefix"); if (full) cnt("chk:kept-payload-bytes", pl.size());
+            }
+        }
+        // recovery mode flag: stays set at least until an out of order packet outside the window was seen in both directions
+        // (stream.h: "cleaned only after capturing an out of order packet that is outside of the recovery window"); when it is cleaned is observed
+        if (inc.app.rec) {
+            if (!cs.is_recovery_mode_enabled() && (!inc.c.rec_may_clear || !inc.s.rec_may_clear)) return fail("recovery/flag-cleared-early", "is_recovery_mode_enabled()=false although the " + std::string(!inc.c.rec_may_clear ? "client" : "server") + " direction has not seen an out of order packet outside its recovery window");
+            cnt(cs.is_recovery_mode_enabled() ? "obs:recovery-flag-set" : "obs:recovery-flag-cleared");
+        }
+        return true;
+    }
+
     bool step(const Pkt& p) {
-        evs.clear(); const u64 ts = p.ts; std::string key = mk_key(p.src, p.dst);
+        evs.clear(); ooos.clear(); cur_app.clear(); const u64 ts = p.ts; std::string key = mk_key(p.src, p.dst);
         { std::vector<u32>& rc = recent[p.script % 1000]; if (rc.size() >= 10) rc.erase(rc.begin()); rc.push_back((u32)step_no); }
         // ---- prediction by the reference table
         auto it = table.find(key); bool expect_new = false, expect_closed = false; int expect_term = -1; bool term_amb = false, from_c = true; Inc* inc = nullptr;
-        const bool is_syn = (p.flags & F_SYN) && !(p.flags & F_ACK); int prev_c = 0, prev_s = 0;
+        const bool is_syn = (p.flags & F_SYN) && !(p.flags & F_ACK); int prev_c = 0, prev_s = 0; bool seg_ignored = false;
         if (it == table.end() && (is_syn || (cfg.attach && p.raw))) {
             Inc n; n.key = key; n.v6 = p.src.v6; n.partial = !is_syn; n.tracking = cfg.tracking; n.created = ts; n.c.ep = p.src; n.s.ep = p.dst;
             n.c.salt = dir_salt(p.src, p.dst); n.s.salt = dir_salt(p.dst, p.src); n.c.start = p.seq; n.s.start = p.ack;
             if (!is_syn) n.c.st = n.s.st = ST_EST;
+            n.c.rebase(); n.s.rebase();
+            // the application that will live in this connection's callbacks
+            n.gen = gen_model[key]++; n.app = app_of(app_salt, key, n.gen, n.partial, cfg.tracking); const App& ap = n.app; n.tracking = ap.track;
+            n.c.ign = ap.ign_new & 1; n.s.ign = (ap.ign_new & 2) != 0; n.c.skip_all = ap.ooo[0] && ap.ooo_skip[0]; n.s.skip_all = ap.ooo[1] && ap.ooo_skip[1];
+            if (ap.rec) for (Side* sd : {&n.c, &n.s}) { sd->rec = true; sd->rec_x = sd->start; sd->rec_win = ap.rec_win; sd->rec_end = sd->start + ap.rec_win; }
+            count_app(ap);
             it = table.insert({key, n}).first; expect_new = true; cnt(is_syn ? "model:announce-on-syn" : "model:announce-on-data(partial)");
         }
         if (it != table.end()) {
             inc = &it->second; from_c = same(p.src, inc->c.ep); Side& sd = from_c ? inc->c : inc->s; prev_c = inc->c.st; prev_s = inc->s.st;
-            inc->last_seen = ts; sd.on_flags(p.flags, p.seq, p.ack);
+            inc->last_seen = ts; sd.on_flags(p);
             if (inc->tracking) sd.on_ack(p.ack, p.sack);
-            if (p.raw) sd.on_data(p.seq, p.len);
+            sd.ooo_expect = OOO_NO;
+            seg_ignored = p.raw && sd.ign;
+            if (seg_ignored) cnt(from_c ? "ignore:client-segment-dropped" : "ignore:server-segment-dropped");
+            else if (p.raw) {
+                u64 fresh_bytes = sd.on_data(p.seq, p.len); const int dir = from_c ? 0 : 1;
+                // the data callback of this direction runs (once) and may switch ignoring on for the packets that follow
+                if (fresh_bytes && inc->app.ign_trig == dir && !inc->ign_fired && sd.k >= inc->app.ign_thr) {
+                    inc->ign_fired = true; if (inc->app.ign_what & 1) inc->c.ign = true; if (inc->app.ign_what & 2) inc->s.ign = true; cnt("app:ignore-switched-on-from-data-callback");
+                    if ((inc->app.ign_what & 1) && !inc->c.chunks.empty()) cnt("ignore:began-with-buffered-chunks"); if ((inc->app.ign_what & 2) && !inc->s.chunks.empty()) cnt("ignore:began-with-buffered-chunks");
+                }
+                if (sd.wrap_exposed && !inc->wrap_seen) { inc->wrap_seen = true; cnt("rec:window-test-straddles-seq-wrap(connections)"); }
+            }
+            cur_app = show(inc->app);
             if (!expect_new && (p.flags & F_SYN)) cnt("model:syn-flag-on-tracked-connection");
             expect_closed = inc->finished();
             const bool amb = !inc->c.disciplined || !inc->s.disciplined;
@@ -485,10 +708,11 @@ struct Case {
             cnt_max("max-buffered-chunks-in-model", inc->chunks()); cnt_max("max-sacked-intervals-in-model", inc->sacked());
             if (expect_closed || expect_term >= 0) inc->dead = true;
         } else cnt("model:packet-of-untracked-connection");
+        if (inc && !expect_new && inc->ann >= 0) { Ann& a0 = anns[inc->ann]; a0.ooo_live0[0] = a0.ooo_live[0]; a0.ooo_live0[1] = a0.ooo_live[1]; }
         // ---- the real follower
         try { Packet pk(build(p), Timestamp(std::chrono::microseconds(ts)), Packet::own_pdu()); fol.process_packet(pk); }
         catch (...) { return fail("exception/process_packet/" + current_exception_type(), "process_packet threw " + current_exception_type()); }
-        if (st().a.verbose) { std::string e; static const char* en[] = {"new-stream", "client-data", "server-data", "closed", "terminated"}; for (auto& ev : evs) e += std::string(" ") + en[ev.type] + "(conn#" + std::to_string(ev.ann) + (ev.type == EV_TERM ? std::string(",reason=") + (ev.reason == 0 ? "TIMEOUT" : ev.reason == 1 ? "BUFFERED_DATA" : "SACKED_SEGMENTS") : std::string()) + ")"; fprintf(stderr, "#%zu %s =>%s%s\n", step_no, show(p).c_str(), e.c_str(), inc ? "" : " [untracked]"); }
+        if (st().a.verbose) { std::string e; static const char* en[] = {"new-stream", "client-data", "server-data", "closed", "terminated"}; for (auto& ev : evs) e += std::string(" ") + en[ev.type] + "(conn#" + std::to_string(ev.ann) + (ev.type == EV_TERM ? std::string(",reason=") + (ev.reason == 0 ? "TIMEOUT" : ev.reason == 1 ? "BUFFERED_DATA" : "SACKED_SEGMENTS") : std::string()) + ")"; for (auto& o : ooos) e += std::string(" ") + (o.dir ? "server" : "client") + "-out-of-order(conn#" + std::to_string(o.ann) + ",seq=" + std::to_string(o.seq) + ",len=" + std::to_string(o.data.size()) + ")"; if (expect_new && inc) e += " " + show(inc->app); fprintf(stderr, "#%zu %s =>%s%s\n", step_no, show(p).c_str(), e.c_str(), inc ? "" : " [untracked]"); }
         // ---- compare the callback trace
         int got_new = 0, got_closed = 0, got_term = 0; int tid = inc && !expect_new ? inc->ann : -1;
         auto limits = [&]() { return inc ? std::to_string(inc->chunks()) + " chunks / " + std::to_string(inc->bytes()) + " bytes buffered, " + std::to_string(inc->sacked()) + " SACKed intervals" : std::string(); };
@@ -536,6 +760,31 @@ struct Case {
                     break;
             }
         }
+        // ---- out-of-order callbacks: exactly the segments that arrive beyond the delivery point, with their sequence number and bytes
+        {
+            int n_rep = 0;
+            for (auto& o : ooos) {
+                if (o.ann == -2) return fail("callback/unknown-stream-object", "an out-of-order callback was invoked with a Stream object that is not the announced one");
+                const char* dn = o.dir ? "server" : "client";
+                if (o.ann != tid) return fail("ooo/other-connection", "out-of-order callback of " + show(anns[o.ann].c) + ">" + show(anns[o.ann].s) + " ran for a packet of another connection");
+                if ((o.dir == 0) != from_c) return fail("ooo/other-direction", std::string(dn) + " out-of-order callback ran for a segment sent by the " + (from_c ? "client" : "server"));
+                if (o.seq != p.seq) return fail(std::string("ooo/wrong-sequence-number/") + dn, "out-of-order callback reports sequence number " + std::to_string(o.seq) + " for a segment with " + std::to_string(p.seq));
+                bool okb = o.data.size() == p.len; u32 salt = dir_salt(p.src, p.dst); for (u32 i = 0; okb && i < p.len; ++i) okb = o.data[i] == H(salt, p.seq + i);
+                if (!okb) return fail(std::string("ooo/wrong-bytes/") + dn, "out-of-order callback reports " + std::to_string(o.data.size()) + " bytes that are not the " + std::to_string(p.len) + " bytes of the segment");
+                ++n_rep;
+            }
+            if (inc && tid >= 0 && !soft(inc, [&]() -> bool {
+                const Side& sd = from_c ? inc->c : inc->s; const int d = from_c ? 0 : 1; const char* dn = d ? "server" : "client"; const Ann& a = anns[tid];
+                if (n_rep > 1) return fail(std::string("ooo/reported-twice/") + dn, "one segment was handed to the out-of-order callback " + std::to_string(n_rep) + " times");
+                if (seg_ignored && n_rep) return fail(std::string("ignore/ooo-callback-although-ignored/") + dn, "out-of-order callback ran for a segment of a direction whose data the application ignores");
+                if (a.ooo_live0[d] && p.raw && !seg_ignored) {
+                    if (sd.ooo_expect == OOO_MUST && !n_rep) return fail(std::string("ooo/missing/") + dn, "segment seq=" + std::to_string(p.seq) + " len=" + std::to_string(p.len) + " starts beyond the delivery point but was not handed to the " + dn + " out-of-order callback");
+                    if (sd.ooo_expect == OOO_NO && n_rep) return fail(std::string("ooo/unexpected/") + dn, "segment seq=" + std::to_string(p.seq) + " len=" + std::to_string(p.len) + " starts at or before the delivery point and reaches it, but was handed to the " + dn + " out-of-order callback");
+                    if (sd.ooo_expect == OOO_MUST) cnt("chk:ooo-segment-reported"); else if (sd.ooo_expect == OOO_NO) cnt("chk:in-order-segment-not-reported-as-ooo");
+                    else cnt(n_rep ? (p.len ? "obs:stale-segment-reported-as-ooo" : "obs:empty-segment-reported-as-ooo") : "obs:stale-or-empty-segment-not-reported");
+                }
+                return true; })) return false;
+        }
         if (expect_new && !got_new) return fail(is_syn ? "announce/missing/syn" : "announce/missing/partial", "connection " + show(p.src) + ">" + show(p.dst) + " was not announced on its " + (is_syn ? "initial SYN" : "first data segment (attach enabled)"));
         if (expect_closed && !got_closed) return fail("closed/missing", "reference connection finished " + states() + " but stream_closed was not called");
         if (expect_term >= 0 && !got_term) return fail(expect_term == StreamFollower::BUFFERED_DATA ? (inc->chunks() > LIM_CHUNKS ? "limit/missed/chunks" : "limit/missed/bytes") : "limit/missed/sacked", "no termination although " + limits());
@@ -545,6 +794,11 @@ struct Case {
             else cnt(from_c ? "close:rst-by-client" : "close:rst-by-server");
         }
         if (inc && !expect_closed && (p.flags & F_FIN) && (from_c ? prev_c : prev_s) != ST_FIN) cnt("close:first-fin-keeps-connection");
+        if (inc && (p.flags & (F_FIN | F_RST)) && (from_c ? inc->c : inc->s).ign && (from_c ? prev_c : prev_s) < ST_FIN) cnt((p.flags & F_FIN) ? "ignore:fin-of-ignored-direction" : "ignore:rst-of-ignored-direction");
+        if (expect_closed && (inc->c.ign || inc->s.ign)) { cnt("closed-after-ignore"); if (inc->c.ign && inc->s.ign) cnt("closed-after-ignore:both-directions"); if (!inc->app.ign_new) cnt("closed-after-ignore:switched-on-later"); }
+        if (expect_new && gen_model[key] > 1) { cnt("announce:tuple-reused"); if (prev_apps.count(key) && (prev_apps[key].ign_new || prev_apps[key].ign_trig >= 0)) cnt("announce:tuple-reused-after-ignoring-application"); }
+        if (expect_closed || expect_term >= 0) prev_apps[key] = inc->app;
+        if (expect_term >= 0 && (inc->c.ign || inc->s.ign)) cnt("limit-after-ignore");
         if (expect_term == StreamFollower::BUFFERED_DATA) cnt(inc->chunks() > LIM_CHUNKS ? "limit:chunks-crossed" : "limit:bytes-crossed");
         if (expect_term == StreamFollower::SACKED_SEGMENTS) cnt("limit:sack-crossed");
         if (inc && expect_term < 0 && !term_amb && !expect_closed) {
@@ -553,17 +807,33 @@ struct Case {
             if (!inc->c.sack_amb && !inc->s.sack_amb && inc->sacked() == LIM_SACK) cnt("limit:at-exactly-1024-sacked-kept");
         }
         // ---- data, presence, public state
-        if (inc && tid >= 0 && !check_data(tid, *inc)) return false;
+        if (inc && tid >= 0 && !soft(inc, [&]() { return check_data(tid, *inc); })) return false;
+        if (inc && inc->quar && tid >= 0) { anns[tid].fresh[0].clear(); anns[tid].fresh[1].clear(); }
         if (inc) { cnt("chk:packets-routed"); if (p.raw && p.len) cnt(from_c ? "chk:client-segments" : "chk:server-segments"); if (inc->partial) cnt("chk:packets-of-partial-streams"); }
+        if (inc && tid >= 0 && expect_new) {
+            const Ann& a = anns[tid];
+            if (a.rec_flag_before) return fail("recovery/flag-set-without-enable", "is_recovery_mode_enabled() on a stream that was just announced");
+            if (a.trk_flag_before) return fail("ack-tracking/enabled-flag", "ack_tracking_enabled() on a stream that was just announced");
+            if (a.trk_flag_after != a.app.track) return fail("ack-tracking/enabled-flag", "ack_tracking_enabled()=" + std::to_string(a.trk_flag_after) + " right after the application " + (a.app.track ? "called" : "did not call") + " enable_ack_tracking()");
+            if (a.rec_flag_after != a.app.rec) return fail("recovery/flag-after-enable", "is_recovery_mode_enabled()=" + std::to_string(a.rec_flag_after) + " right after the application " + (a.app.rec ? "called" : "did not call") + " enable_recovery_mode()");
+        }
         if (inc && inc->dead) { table.erase(key); inc = nullptr; }
-        if (!check_presence(key, p.src, p.dst)) return false;
-        { auto ti = table.find(key); if (ti != table.end() && !check_state(ti->second, ts)) return false; }
+        if (!check_presence(key, p.src, p.dst, true)) return false;
+        { auto ti = table.find(key); if (ti != table.end() && (!check_state(ti->second, ts) || !soft(&ti->second, [&]() { return check_data_state(ti->second); }))) return false; }
         for (int q = 0; q < 2 && !all_keys.empty(); ++q) { size_t i = rng.below((u32)all_keys.size()); if (!check_presence(all_keys[i], key_eps[i].first, key_eps[i].second)) return false; }
         // ---- lazy keep-alive: nothing may stay unreported for two keep-alive periods
         for (auto& kv : table) { u64 idle = ts - kv.second.last_seen; if (idle >= 2 * cfg.ka) return fail("timeout/overdue", "connection " + show(kv.second.c.ep) + ">" + show(kv.second.s.ep) + " idle for " + std::to_string(idle) + "us (keep-alive " + std::to_string(cfg.ka) + "us) has still not been terminated"); if (idle > cfg.ka) cnt("timeout:idle>keepalive-not-yet-swept"); }
         cnt("packets"); return true;
     }
-    std::vector<std::pair<Ep, Ep>> key_eps;
+    std::vector<std::pair<Ep, Ep>> key_eps; std::map<std::string, App> prev_apps;
+    void count_app(const App& ap) {
+        if (ap.plain()) cnt("app:only-listens");
+        if (ap.ign_new == 1) cnt("app:ignore-client"); if (ap.ign_new == 2) cnt("app:ignore-server"); if (ap.ign_new == 3) cnt("app:ignore-both"); if (ap.ign_trig >= 0) cnt("app:ignore-later-armed");
+        if (ap.keep[0] || ap.keep[1]) cnt("app:no-auto-cleanup"); if (ap.keep[0] != ap.keep[1]) cnt("app:no-auto-cleanup-one-direction"); if (ap.clear_thr[0] || ap.clear_thr[1]) cnt("app:clears-payload-itself");
+        if (ap.ooo[0] || ap.ooo[1]) cnt("app:ooo-callback"); if ((ap.ooo[0] && ap.ooo_skip[0]) || (ap.ooo[1] && ap.ooo_skip[1])) cnt("app:ooo-callback-advances-sequence");
+        if (ap.track) cnt("app:ack-tracking"); if (ap.rec) { cnt("app:recovery-mode"); if (ap.rec_win == 0) cnt("app:recovery-mode-window-0"); }
+        if (ap.swap_after[0] || ap.swap_after[1]) cnt("app:data-callback-swaps");
+    }
 
     void run(long idx) {
         (void)idx;
@@ -571,7 +841,7 @@ struct Case {
         int kai = rng.below(7); cfg.set_ka = kai < 6; cfg.ka = cfg.set_ka ? kas[kai] : 300000000ull;
         cfg.attach = rng.chance(35, 100); cfg.tracking = rng.chance(1, 2); cfg.bytes_share = rng.below(3) == 0 ? 0 : rng.below(8);
         switch (rng.below(5)) { case 0: cfg.t0 = 0; break; case 1: cfg.t0 = cfg.ka - 1; break; case 2: cfg.t0 = cfg.ka; break; case 3: cfg.t0 = 1ull + rng.below(1000); break; default: cfg.t0 = 1700000000000000ull + rng.below64(1000000000ull); }
-        acc_salt = rng.next();
+        app_salt = rng.next();
         Gen g(rng, cfg); u32 kind = rng.below(100); int nconn;
         u32 sz = rng.below(10); nconn = sz < 4 ? 1 + rng.below(4) : sz < 8 ? 5 + rng.below(11) : 16 + rng.below(25);
         u64 span = cfg.ka * (1 + rng.below(4));
